@@ -524,7 +524,7 @@ theorem docstring_literal_decision (p q body : List Char) (hp : p ∈ legalPrefi
   unfold pyEvald pyIsDocstring
   cases hf : pyIsFString p <;> cases hb : pyIsBytes p <;> simp
 
-example : ['R', 'b'] ∈ legalPrefixes ∧ ['"', '"', '"'] ∈ quotes ∧ pyIsDocstring ['R', 'b'] = false ∧
+example : ['R', 'b'] ∈ legalPrefixes ∧ ['\'', '\'', '\''] ∈ quotes ∧ pyIsDocstring ['R', 'b'] = false ∧
     pyIsDocstring ['U'] = true := by decide
 
 /-- the decision never looks at the body: two tokens with the same prefix and quote get the same
@@ -541,14 +541,14 @@ theorem docstring_literal_body_irrelevant (p q b₁ b₂ : List Char) (ev : Eval
   unfold cleanDocstringLiteral
   rw [skipsEval_token p q b₁ hp hq, skipsEval_token p q b₂ hp hq]
 
-example : token [] ['"'] ['b', 'a', 'r'] = ['"', 'b', 'a', 'r', '"'] := by decide
+example : token [] ['\''] ['b', 'a', 'r'] = ['\'', 'b', 'a', 'r', '\''] := by decide
 
 /-- why the two theorems above are not vacuous: a rule that takes the letters of `value[:2]` for
 the prefix (`'b' in value[:2].lower()`) is not a function of the prefix - kernel-checked on
-`"bc"` against `"ac"`, both docstrings in Python -/
+`'bc'` against `'ac'`, both docstrings in Python -/
 theorem two_char_sniffing_depends_on_body :
-    (lower ((token [] ['"'] ['b', 'c']).take 2)).contains 'b' = true ∧
-    (lower ((token [] ['"'] ['a', 'c']).take 2)).contains 'b' = false ∧
+    (lower ((token [] ['\''] ['b', 'c']).take 2)).contains 'b' = true ∧
+    (lower ((token [] ['\''] ['a', 'c']).take 2)).contains 'b' = false ∧
     pyIsDocstring [] = true := by decide
 
 end DocLit
